@@ -222,7 +222,7 @@ def ob_diff_is(ctx, region):
 
 # ---------------------------------------------------------------- series vs exact: GenInverse (bookkeeping, short-line branch, area assembly) with one shared abstract core
 MASK_AREA = MASK | 0x4000 | 0x0100      # + AREA (and its capability bit)
-def _run_gi2(ctx, exact, lat1, lon1, lat2, lon2, assume):
+def _run_gi2(ctx, exact, lat1, lon1, lat2, lon2, assume, case):
     m = H.ir_module(ctx, WX if exact else W, flags=NOINL); cls = 'GeodesicExact' if exact else 'Geodesic'; o = H.offsets(m, cls)
     cells = {off: z3.Real('%s_%d' % (cls, off)) for off in range(0, H.sizeof(m, cls), 8)}
     cells.update({0: 83, 8: rsym.RV(Fraction(1, 2 ** 511)), 16: rsym.RV(Fraction(1, 2 ** 52)), 24: rsym.RV(Fraction(200, 2 ** 52)), 32: rsym.RV(Fraction(1, 2 ** 26)), 40: rsym.RV(Fraction(1, 2 ** 52)), 48: rsym.RV(Fraction(1000, 2 ** 26))})
@@ -234,9 +234,16 @@ def _run_gi2(ctx, exact, lat1, lon1, lat2, lon2, assume):
     def nop(ex, a, mem): return None
     def angdiff(ex, a, mem): ex.store(mem, a[2], None, rsym.RV(0)); return z3.simplify(a[1] - a[0])
     def sincosd(ex, a, mem): ex.store(mem, a[1], None, ex.UF('sind', 1)(a[0])); ex.store(mem, a[2], None, ex.UF('cosd', 1)(a[0])); return None
-    def sincosde(ex, a, mem): ex.store(mem, a[2], None, ex.UF('sinde', 2)(a[0], a[1])); ex.store(mem, a[3], None, ex.UF('cosde', 2)(a[0], a[1])); return None
+    def sincosde(ex, a, mem):
+        sv = ex.UF('sinde', 2)(a[0], a[1]); ex.store(mem, a[2], None, sv); ex.store(mem, a[3], None, ex.UF('cosde', 2)(a[0], a[1]))
+        ex.cur.cond.append(sv == 0 if case == 'meridian' else sv != 0)          # case split on the abstract core: recorded in the path condition, so every claim is conditional on it
+        return None
     k = 2 if exact else 1                     # the exact solver passes its EllipticFunction object first
-    def invstart(ex, a, mem): args = a[k:k + 9]; outs(ex, mem, a[k + 9:k + 14], 'IS', args); return ex.UF('IS_sig12', 9)(*args)
+    def invstart(ex, a, mem):
+        args = a[k:k + 9]; outs(ex, mem, a[k + 9:k + 14], 'IS', args); r = ex.UF('IS_sig12', 9)(*args)
+        if case == 'short': ex.cur.cond.append(r >= 0)
+        elif case == 'newton': ex.cur.cond.append(r < 0)
+        return r
     def lambda12(ex, a, mem):
         args = a[1:11]; outs(ex, mem, a[11:18], 'L12', args); ex.store(mem, a[19], None, ex.UF('L12_domg', 10)(*args))
         if not exact: ex.store(mem, a[18], None, ex.UF('L12_eps', 10)(*args))
@@ -261,18 +268,19 @@ def _run_gi2(ctx, exact, lat1, lon1, lat2, lon2, assume):
         return [rsym.Ptr('g', 0), lat1, lon1, lat2, lon2, MASK_AREA] + [rsym.Ptr('o', 8 * i) for i in range(9)]
     return ex.run_all(GIX if exact else GI, mk)
 
-def ob_diff_gi(ctx, s1, s2, sd):
+def ob_diff_gi(ctx, s1, s2, sd, case):
     la1, la2, L, D = z3.Real('alat1'), z3.Real('alat2'), z3.Real('L'), z3.Real('D')
     base = [la1 > 0, la1 < 90, la2 > 0, la2 < 90, D > 0, D < 180, z3.Real('m_f') > 0, z3.Real('m_e2') > 0, z3.Real('m_a') > 0, z3.Real('m_f1') > 0]
     lat1, lat2 = (la1 if s1 > 0 else -la1 if s1 < 0 else rsym.RV(0)), (la2 if s2 > 0 else -la2 if s2 < 0 else rsym.RV(0))
     lon1, lon2 = L, (L + D if sd > 0 else L - D)
-    A = _run_gi2(ctx, False, lat1, lon1, lat2, lon2, base); B = _run_gi2(ctx, True, lat1, lon1, lat2, lon2, base)
+    A = _run_gi2(ctx, False, lat1, lon1, lat2, lon2, base, case); B = _run_gi2(ctx, True, lat1, lon1, lat2, lon2, base, case)
     s = z3.Solver(); s.set('timeout', 5000)
     def keys(p):
         cs = [z3.simplify(c) for c in p.cond[len(base):]]
         return frozenset(c.sexpr() for c in cs), frozenset(z3.simplify(z3.Not(c)).sexpr() for c in cs)
     KA = [keys(p) for p in A]; KB = [keys(p) for p in B]
     q = 0; ss = 0.0; bad = None; unk = []; pairs = 0; triv = 0
+    print('D.GenInverse %s: %d x %d paths' % (case, len(A), len(B)), flush=True)
     for pa, (ka, na) in zip(A, KA):
         for pb, (kb, nb) in zip(B, KB):
             if nb & ka or na & kb: continue
@@ -289,7 +297,7 @@ def ob_diff_gi(ctx, s1, s2, sd):
                 if st == 'sat' and bad is None: bad = {'kind': 'c02diff', 'output': name, 'series': str(z3.simplify(x))[:300], 'exact': str(z3.simplify(y))[:300]}
                 elif st == 'unknown': unk.append(name)
     r = {'queries': q, 'nontrivial': pairs, 'solver_s': round(ss, 3), 'functions': ['GeographicLib::Geodesic::GenInverse (13-argument overload)', 'GeographicLib::GeodesicExact::GenInverse (13-argument overload)', 'GeographicLib::Math::norm<double>, sq<double> (executed)'],
-         'bounds': {'sign pattern (lat1, lat2, lon2-lon1)': [s1, s2, sd], 'paths': [len(A), len(B)], 'feasible path pairs': pairs, 'claims reduced to true by z3.simplify': triv, 'Newton iterations': 1, 'outmask': 'DISTANCE|AZIMUTH|REDUCEDLENGTH|GEODESICSCALE|AREA'}}
+         'bounds': {'sign pattern (lat1, lat2, lon2-lon1)': [s1, s2, sd], 'paths': [len(A), len(B)], 'feasible path pairs': pairs, 'claims reduced to true by z3.simplify': triv, 'Newton iterations': 1, 'outmask': 'DISTANCE|AZIMUTH|REDUCEDLENGTH|GEODESICSCALE|AREA', 'case': case}}
     if bad: r.update({'verdict': 'violated', 'detail': 'GenInverse of the two solvers disagree on %s with the same abstract core: series %s, exact %s' % (bad['output'], bad['series'], bad['exact']), 'cex': bad})
     elif unk: r.update({'verdict': 'inconclusive', 'detail': 'unknown on outputs %r' % sorted(set(unk))})
     elif pairs == 0: r.update({'verdict': 'inconclusive', 'detail': 'no feasible path pair'})
@@ -315,8 +323,8 @@ def obligations(ctx):
             obs.append(Ob('X.%s.%s%s%s' % (which, '+' if s1 > 0 else '-' if s1 < 0 else '0', '+' if s2 > 0 else '-' if s2 < 0 else '0', 'E' if sd > 0 else 'W'), (lambda ctx, w=which, a=s1, b=s2, c=sd: ob_sym(ctx, w, a, b, c, True)), '[REAL] core opaque', 'E2 rsym+z3',
                           'GeodesicExact::GenInverse, ' + desc[which], timeout=1500, tier='quick' if (which, s1, s2, sd) in QX else 'thorough', bounds={'signs': [s1, s2, sd]}))
     import os
-    for (s1, s2, sd) in (((-1, 1, 1), (1, 1, -1), (0, 0, 1), (1, -1, 1)) if os.environ.get('VERIF_EXPERIMENTAL') else ()):      # not registered: exceeds the path cap (1024) with the AREA branch, no verdict yet
-        obs.append(Ob('D.GenInverse.%s%s%s' % ('+' if s1 > 0 else '-' if s1 < 0 else '0', '+' if s2 > 0 else '-' if s2 < 0 else '0', 'E' if sd > 0 else 'W'), (lambda ctx, a=s1, b=s2, c=sd: ob_diff_gi(ctx, a, b, c)), '[REAL] core opaque, shared by both solvers', 'E2 rsym+z3',
+    for (s1, s2, sd, case) in (((-1, 1, 1, 'short'), (-1, 1, 1, 'meridian'), (-1, 1, 1, 'newton'), (1, 1, -1, 'short'), (1, -1, 1, 'meridian')) if os.environ.get('VERIF_EXPERIMENTAL') else ()):
+        obs.append(Ob('D.GenInverse.%s.%s%s%s' % (case, '+' if s1 > 0 else '-' if s1 < 0 else '0', '+' if s2 > 0 else '-' if s2 < 0 else '0', 'E' if sd > 0 else 'W'), (lambda ctx, a=s1, b=s2, c=sd, d=case: ob_diff_gi(ctx, a, b, c, d)), '[REAL] core opaque, shared by both solvers', 'E2 rsym+z3',
                       'series and exact solvers agree: Geodesic::GenInverse and GeodesicExact::GenInverse on the same symbolic problem and the same abstract numerical core write the same a12, s12, azimuth sines/cosines, m12, M12, M21 and S12 (canonical form, meridian / equatorial / short-line / Newton case selection, area assembly incl. both alp12 formulas and the sign restoration)',
                       timeout=1500, tier='thorough', bounds={'signs': [s1, s2, sd]}))
     for region in ('oblate', 'prolate'):
